@@ -312,7 +312,7 @@ fn polling(variant: usize, yield_every: u64) -> Result<(u64, String), String> {
     ][variant % 4]
         .clone();
     let tname = flag_ty.to_string();
-    let waiter = parse_function(&format!("(flag: mut {tname}, k: mut int, big: int) -> int {{ while {cond} && *k < big {{ k += 1; }} return *k }}")).ok_or("waiter rejected")?;
+    let waiter = parse_function(&format!("(flag: mut {tname}, k: mut int, big: int) -> int {{ while {cond} {{ k += 1; if *k >= big {{ break }} }} return *k }}")).ok_or("waiter rejected")?;
     let setter = parse_function(&format!("(flag: mut {tname}) -> int {{ flag = {one}; return 1 }}")).ok_or("setter rejected")?;
     let flag = Arc::new(Mut { var_type: flag_ty, variable: RwLock::new(zero) });
     let k = Arc::new(Mut { var_type: Type::Int, variable: RwLock::new(Variable::Int(0)) });
